@@ -67,6 +67,7 @@ namespace {
     R gap = 1;     //!< smallest relative gap between the eigenvalues of C the handler separates
     R relax = 1;   //!< 1/gap relaxation of the tolerances
     bool doubleEigenvalue3d = false;
+    bool equalLarge = false;  //!< fs::StretchClass::equalLarge
     std::string cls;  //!< distinct | nearly_equal | tiny_gap | equal (fs::classifyStretches)
     Handler::Setting setting;
     const char* sname;
@@ -87,6 +88,8 @@ namespace {
     s.cls = sc.name;
     s.doubleEigenvalue3d = sc.doubleEigenvalue3d;
     if (s.doubleEigenvalue3d) c.tag("stretch.double_eigenvalue_3d");
+    s.equalLarge = sc.equalLarge;
+    if (s.equalLarge) c.tag("stretch.equal_large");
     s.relax = sc.relax();
     c.tag("stretch." + s.cls);
     const bool eul = c.boolean("eulerian");
@@ -183,6 +186,10 @@ namespace {
     const R tolS = 1e-10L * s.relax * s.kC * nT * niF * niF;
     const R tolSig = tolS * nF * nF / J;
     const std::string cl = "." + s.cls;
+    // equal stretches of large magnitude: class of its own (findings/pending/C24.json)
+    auto skey = [&](const char* k) {
+      return s.equalLarge ? std::string("C24.stress.equal_large") : std::string(k) + cl;
+    };
     // oracle self check: Daleckii-Krein derivative against the finite difference
     // of the reference logarithm along a generated direction
     const M3 L = gen::dense(c, N, 1.);
@@ -209,12 +216,12 @@ namespace {
     Stensor sig;
     if (s.setting == Handler::LAGRANGIAN) {
       const Stensor S = h.convertToSecondPiolaKirchhoffStress(T);
-      cmpS(c, S, Sref, tolS, "C24.pk2" + cl, "S = T : dE_log/dE_GL");
+      cmpS(c, S, Sref, tolS, skey("C24.pk2"), "S = T : dE_log/dE_GL");
       // stress power, literally
-      c.close(ref::ddot(gen::stensorToM3(S), dEgl), pT, tolP, "C24.power" + cl,
+      c.close(ref::ddot(gen::stensorToM3(S), dEgl), pT, tolP, skey("C24.power"),
               "S:dE_GL = T:dE_log");
       const Stensor T2 = h.convertFromSecondPiolaKirchhoffStress(S);
-      cmpS(c, T2, Tm, 1e-10L * s.relax * s.kC * s.kC * nT, "C24.roundtrip" + cl,
+      cmpS(c, T2, Tm, 1e-10L * s.relax * s.kC * s.kC * nT, skey("C24.roundtrip"),
            "convertFromSecondPiolaKirchhoffStress o convertToSecondPiolaKirchhoffStress");
       // raw pointer overloads (plain components)
       double tab[6] = {0, 0, 0, 0, 0, 0};
@@ -223,7 +230,7 @@ namespace {
       Stensor S2;
       S2.importTab(tab);
       for (int k = 0; k < nS; ++k)
-        c.close(S2[k], S[k], 512 * u * ref::maxabs(gen::stensorToM3(S)) + 1e-300L, "C24.pointer.pk2",
+        c.close(S2[k], S[k], 2048 * u * ref::maxabs(gen::stensorToM3(S)) + 1e-300L, "C24.pointer.pk2",
                 "pointer overload of convertToSecondPiolaKirchhoffStress");
       h.convertFromSecondPiolaKirchhoffStress(tab);
       Stensor T3;
@@ -242,11 +249,11 @@ namespace {
       c.check(thrown, "C24.setting_guard", "convertToSecondPiolaKirchhoffStress in EULERIAN setting");
     }
     sig = h.convertToCauchyStress(T);
-    cmpS(c, sig, sigref, tolSig, "C24.cauchy" + cl, std::string("sigma = F S F^T/J, ") + s.sname);
+    cmpS(c, sig, sigref, tolSig, skey("C24.cauchy"), std::string("sigma = F S F^T/J, ") + s.sname);
     c.close(J * ref::ddot(gen::stensorToM3(sig), d), pT, tolP,
-            "C24.power" + cl, std::string("J sigma:d = T:dE_log, ") + s.sname);
+            skey("C24.power"), std::string("J sigma:d = T:dE_log, ") + s.sname);
     const Stensor T4b = h.convertFromCauchyStress(sig);
-    cmpS(c, T4b, Tm, 1e-10L * s.relax * s.kC * s.kC * nT, "C24.roundtrip" + cl,
+    cmpS(c, T4b, Tm, 1e-10L * s.relax * s.kC * s.kC * nT, skey("C24.roundtrip"),
          std::string("convertFromCauchyStress o convertToCauchyStress, ") + s.sname);
     {
       double tab[6] = {0, 0, 0, 0, 0, 0};
@@ -255,7 +262,7 @@ namespace {
       Stensor s2;
       s2.importTab(tab);
       for (int k = 0; k < nS; ++k)
-        c.close(s2[k], sig[k], 512 * u * ref::maxabs(gen::stensorToM3(sig)) + 1e-300L,
+        c.close(s2[k], sig[k], 2048 * u * ref::maxabs(gen::stensorToM3(sig)) + 1e-300L,
                 "C24.pointer.cauchy", "pointer overload of convertToCauchyStress");
       h.convertFromCauchyStress(tab);
       Stensor T5;
@@ -307,6 +314,7 @@ namespace {
               "Richardson estimate too large for " + what);
       std::string key = "C24.moduli." + kind + "." + s.sname + "." + s.cls;
       if (s.doubleEigenvalue3d) key = "C24.moduli.double_eigenvalue_3d";
+      if (s.equalLarge) key = "C24.moduli.equal_large";
       if (s.cls == "tiny_gap") key = "C24.moduli.tiny_gap";
       if (flag == fs::ABAQUS && s.setting == Handler::LAGRANGIAN) key = "C24.moduli.abaqus.lagrangian";
       // DESIGN: 1e-6 relaxed by 1/gap for nearly equal stretches; much tighter otherwise
